@@ -18,8 +18,8 @@ REASON = {1: "stray-gt", 2: "bad-entity", 3: "comment", 4: "tag-not-allowed", 5:
 REPORTED = set()
 
 
-def erid(ka, kb, xh, cm=1, nu=1, enc=0):
-    return 100 + ka + 4 * kb + 16 * xh + 32 * cm + 64 * nu + 128 * enc
+def erid(ka, kb, xh, cm=1, nu=1, enc=0, js=0):
+    return 100 + ka + 4 * kb + 16 * xh + 32 * cm + 64 * nu + 128 * enc + 512 * js
 
 
 def run(ctx):
@@ -31,6 +31,8 @@ def run(ctx):
         "expression attributes of the drivers are character-set / alternative expressions evaluated by TLC itself; one free-form expression is "
         "opaque (verdict of booster::regex logged); URI syntax beyond the scheme is not part of the judgement",
         "encodings driven: none, UTF-8, ISO-8859-1, windows-1252 (the non-ASCII-compatible path through iconv is not driven)",
+        "expression attributes are driven with words of their language followed by / containing LF, CR LF, LF LF (API-built and JSON-loaded "
+        "rules); pure 7-bit inputs with C0 / DEL bytes are driven under every declared encoding",
     ]
     W = 16
     legs = os.environ.get("VERIF_LEGS", "DB")      # development aid (sensitivity runs): "B" skips the design leg
@@ -74,6 +76,8 @@ def run(ctx):
         job("tok", ["frag", "tok", 4, 0, 1, X, H, X2, H2], 2)
         job("tok2", ["frag", "tok2", 3, 0, 1, X, H, X2, H2], 1)
         job("chars2", ["frag", "chars2", 3, 0, 1, erid(3, 1, 1, 1, 1, 1), erid(3, 1, 0, 1, 1, 3)], 1)
+        job("lf", ["frag", "lf", 4, 0, 1, erid(3, 3, 1), erid(3, 3, 0, js=1)], 1)
+        job("ctl", ["frag", "ctl", 3, 0, 1, erid(3, 1, 1, enc=1), erid(3, 1, 0, enc=2), erid(3, 1, 0, enc=3, js=1)], 1)
         job("rnd", ["rnd", 900, 200, 0, 1] + fam, 3)
     else:
         fam = list(range(32)) + [33, 38, 44, 51]
@@ -84,6 +88,8 @@ def run(ctx):
         job("tok", ["frag", "tok", 5, 0, 1, X, H, X2, H2, erid(2, 3, 1), erid(1, 1, 0, 0, 0)], 12)
         job("tok2", ["frag", "tok2", 4, 0, 1, X, H, X2, H2, erid(2, 3, 1), erid(3, 3, 0)], 2)
         job("chars2", ["frag", "chars2", 4, 0, 1, erid(3, 1, 1, 1, 1, 1), erid(3, 1, 0, 1, 1, 3), erid(3, 1, 0, 1, 1, 2)], 2)
+        job("lf", ["frag", "lf", 5, 0, 1, erid(3, 3, 1), erid(3, 3, 0, js=1), erid(3, 3, 0)], 3)
+        job("ctl", ["frag", "ctl", 4, 0, 1, erid(3, 1, 1, enc=1), erid(3, 1, 0, enc=2), erid(3, 1, 0, enc=3, js=1), erid(3, 1, 1, enc=3)], 2)
         job("rnd", ["rnd", 3000, 400, 0, 1] + fam, 12)
         job("rndL", ["rnd", 60, 1500, 0, 1] + fam[:12], 2)
     NT = 6 if q else 12
@@ -103,7 +109,7 @@ def run(ctx):
         for x in rej:
             report(ctx, shard, x)
     # drift: the mechanism model's own prediction (never a violation)
-    dtr = [t for t in traces if any(k in os.path.basename(t) for k in (("tok", "rnd") if q else ("tok", "rnd", "attr")))]
+    dtr = [t for t in traces if any(k in os.path.basename(t) for k in (("tok", "rnd", "lf", "ctl") if q else ("tok", "rnd", "attr", "lf", "ctl")))]
     dres = shard.parallel_print_pass(ctx, "Xss/XssTokTrace.tla", "XssTokDrift.cfg", dtr, "DRIFT", threads=NT)
     nd = 0
     for t, rows in dres.items():
